@@ -169,3 +169,4 @@ def check(ctx):
     ctx.import_rules("C02", r"^(sync-blocker|blocker|fast-blocker|thread-park)/")
     condvar_frontend_rules(ctx)
     wait_group_rules(ctx)
+    ctx.import_rules("C10", r"^no-panicking-instant-arithmetic$")
